@@ -258,6 +258,16 @@ func diff(src, dst *rib.RIB, explicitReplace map[spb.AFTType]bool, id *atomic.Ui
 
 	ops := NewReconcileOps()
 
+	// Network instances that exist only in the destination are reconciled against
+	// an empty network instance, such that their entries are deleted.
+	for dstNI := range dstContents {
+		if _, ok := srcContents[dstNI]; !ok {
+			empty := &aft.RIB{}
+			empty.GetOrCreateAfts()
+			srcContents[dstNI] = empty
+		}
+	}
+
 	for srcNI, srcNIEntries := range srcContents {
 		dstNIEntries, ok := dstContents[srcNI]
 		if !ok {
